@@ -1298,6 +1298,34 @@ func runC20(ctx *Ctx, idx int) {
 		}
 	}
 
+	// ---- 1a''. values that are windows of one caller-owned block (records
+	// parsed in place): what lies behind each value - the next record - is the
+	// caller's too. Values shorter than the encoder's fixed size are outside
+	// what the encoder promises to read back, so only the build is observed:
+	// it may fail, it must not write.
+	if n > 0 && idx%3 == 0 {
+		size := r.Range(2, 9)
+		block := r.Bytes(n*size + 16)
+		keepBlock := append([]byte{}, block...)
+		bvals := make([][]byte, n)
+		for i := range bvals {
+			l := size
+			if idx%6 == 0 && r.Chance(1, 3) {
+				l = r.Intn(size) // shorter than the fixed size
+			}
+			bvals[i] = block[i*size : i*size+l]
+		}
+		try(func() { trie.NewSlimTrie(encode.Bytes{Size: size}, keys, bvals, o.Opt()) })
+		if !bytes.Equal(block, keepBlock) {
+			p := 0
+			for block[p] == keepBlock[p] {
+				p++
+			}
+			viol("value-block-modified", map[string]interface{}{"what": "values were windows of one block; the build wrote into the block", "first_diff_at": p, "value_size": size, "with_short_values": idx%6 == 0})
+		}
+		ctx.Count("value_blocks_compared", 1)
+	}
+
 	// ---- the stream under test
 	var stream []byte
 	layout := ""
@@ -1392,6 +1420,48 @@ func runC20(ctx *Ctx, idx int) {
 				out = out2
 			}
 			ctx.Count("output_overwrites_checked", 1)
+		}
+	}
+
+	// ---- 1d. a load that FAILS must not have written to the buffer either: a
+	// caller that reads a file in pieces tries early, completes the read and
+	// tries again; truncated at several points and with a foreign version, as a
+	// short view of a longer buffer
+	{
+		full := append([]byte{}, stream...)
+		ld, _ := trie.NewSlimTrie(enc, nil, nil)
+		cutsAt := []int{len(stream) - 1, len(stream) / 2, 40, 33, 31, 24, 8, 0}
+		if len(stream) > 200 {
+			cutsAt = append(cutsAt, len(stream)-33, 32+r.Intn(len(stream)-32), 32+r.Intn(len(stream)-32))
+		}
+		for _, c := range cutsAt {
+			if c < 0 || c >= len(stream) {
+				continue
+			}
+			var lerr error
+			pv, _ := try(func() { lerr = ld.Unmarshal(full[:c]) })
+			if !bytes.Equal(full, stream) {
+				p := 0
+				for p < len(full) && full[p] == stream[p] {
+					p++
+				}
+				viol("failed-unmarshal-modified-input", map[string]interface{}{"layout": layout, "cut": c, "first_diff_at": p, "error": fmt.Sprint(lerr), "panic": fmt.Sprint(pv)})
+				copy(full, stream)
+				break
+			}
+			ctx.Count("failed_loads_buffer_compared", 1)
+		}
+		bad := withVersion(stream, "9.9.9")
+		keep := append([]byte{}, bad...)
+		try(func() { ld.Unmarshal(bad) })
+		if !bytes.Equal(bad, keep) {
+			viol("failed-unmarshal-modified-input", map[string]interface{}{"layout": layout, "what": "incompatible version"})
+		}
+		// and the complete stream still loads from the very buffer that was offered in pieces
+		var lerr error
+		pv, _ := try(func() { lerr = ld.Unmarshal(full) })
+		if pv != nil || lerr != nil {
+			viol("completed-stream-does-not-load-after-early-attempts", map[string]interface{}{"layout": layout, "error": fmt.Sprint(lerr), "panic": fmt.Sprint(pv)})
 		}
 	}
 
@@ -1516,7 +1586,7 @@ func init() {
 		NumCases:      c20NumCases,
 		Run:           runC20,
 		MinNontrivial: func(tier string) int { return 200 },
-		Gates: shapeGates("builds_snapshotted", "builds_with_caller_owned_option_slice", "value_buffer_overwrites_checked", "value_buffer_shape:1", "value_buffer_shape:2", "value_buffer_shape:3", "marshal_outputs_kept_alive", "input_overwrites_checked", "output_overwrites_checked", "guarded_streams", "guarded_key_sets", "layout:current", "layout:0.5.10", "layout:3sec",
+		Gates: shapeGates("builds_snapshotted", "builds_with_caller_owned_option_slice", "value_buffer_overwrites_checked", "value_blocks_compared", "failed_loads_buffer_compared", "value_buffer_shape:1", "value_buffer_shape:2", "value_buffer_shape:3", "marshal_outputs_kept_alive", "input_overwrites_checked", "output_overwrites_checked", "guarded_streams", "guarded_key_sets", "layout:current", "layout:0.5.10", "layout:3sec",
 			"0510_streams_with_prefixes_to_reencode"),
 		Assumptions: []string{"retaining references to key strings is not forbidden by the statement; key memory is only write-protected", "debug.SetPanicOnFault turns SIGSEGV on the guarded mappings into recoverable panics (verified in selftest)"},
 	})
